@@ -169,9 +169,15 @@ func runC10(t *testing.T, c *hsCase) (res c10Result) {
 			liveSince              = [2]int64{-1, -1} // entry time (trace us) of the live attempt: client, server
 			liveConn               [2]*gbn.GoBackNConn
 		)
+		type synAt struct {
+			t int64
+			n int
+		}
+		var synLog []synAt // every SYN handed to the server side, in order (under the trace mutex)
 		tr.Observers = append(tr.Observers, func(e vnet.TraceEvent) {
 			if e.Ev == "recv" && e.Dir == "c2s" && e.Type == "SYN" {
 				synSeen[e.Seq] = true // under the trace mutex
+				synLog = append(synLog, synAt{e.T, e.Seq})
 			}
 		})
 		for _, p := range c.StaleC2S {
@@ -205,6 +211,7 @@ func runC10(t *testing.T, c *hsCase) (res c10Result) {
 					err  error
 				)
 				cctx, ccancel := context.WithCancel(ctx)
+				attemptStart := tr.Now()
 				if isClient {
 					o := []gbn.Option{gbn.WithTimeoutOptions(c.Client.Options()...)}
 					conn, err = gbn.NewClientConn(cctx, uint8(c.N), c2s.Send, s2c.Recv, o...)
@@ -250,6 +257,20 @@ func runC10(t *testing.T, c *hsCase) (res c10Result) {
 					srvAttempt = attempt
 					tr.Mu().Lock()
 					seen := synSeen[int(w.N)]
+					// the last SYN handed to this attempt; a SYN handed over at
+					// this very instant may already belong to the data phase
+					// (the receive loop runs concurrently with this check), so
+					// the one before it is acceptable too
+					lastSyn, prevSyn := -1, -1
+					nowUs := tr.Now()
+					for _, sa := range synLog {
+						if sa.t >= attemptStart {
+							prevSyn, lastSyn = lastSyn, sa.n
+							if sa.t < nowUs {
+								prevSyn = -1
+							}
+						}
+					}
 					tr.Mu().Unlock()
 					switch {
 					case w.N == 255 || w.S == 0:
@@ -259,6 +280,11 @@ func runC10(t *testing.T, c *hsCase) (res c10Result) {
 						viol = fmt.Sprintf("server attempt %d entered the data phase with n=%d, but no SYN carrying that value was ever delivered to it", attempt, w.N)
 					case int(w.S) != int(w.N)+1:
 						viol = fmt.Sprintf("server attempt %d: n=%d but s=%d", attempt, w.N, w.S)
+					case lastSyn >= 0 && int(w.N) != lastSyn && int(w.N) != prevSyn:
+						// the server echoes every SYN it gets; the window it
+						// commits to must be the one it echoed last (the only
+						// one the client can have accepted)
+						viol = fmt.Sprintf("server attempt %d entered the data phase with n=%d although the last SYN handed to it (and echoed) carried N=%d", attempt, w.N, lastSyn)
 					}
 				}
 				bad := viol != ""
